@@ -71,6 +71,7 @@ void ParticleSwarmState::initializeParticlesInsideBox(const double box_lower[], 
     }
     positions_initialized = true;
     velocities_initialized = true;
+    cache_initialized = false; // the cached values and domain flags belong to the old positions
 }
 
 void ParticleSwarmState::initializeParticlesInsideBox(const std::vector<double> &box_lower, const std::vector<double> &box_upper,
